@@ -118,17 +118,42 @@ theorem aggregates_entry (noData : α) (op : Op) (c : Cells (Option α)) (i j : 
   unfold aggregates cellAt
   simp [hi, hj]
 
+/-- the grids written by `computeAggregates` on a raster whose no-data value is `nd` (`none` = `None`): entry (line `i`,
+column `j`) is the operator's value on that cell, and the raster's OWN no-data value when that value is NaN; hence a cell
+without a non-NaN value (no observation, or only NaN) holds 0 for count and sum and the raster's no-data value — whatever it is —
+for the four other operators. -/
+theorem aggregatesN_entry (nd : Option α) (op : Op) (c : Cells (Option α)) (i j : ℕ)
+    (hi : i < c.length) (hj : j < (c[i]'hi).length) :
+    ((aggregatesN nd op c)[i]?.bind (·[j]?))
+        = some (fillNaN nd (cellValue op (cellAt c i j)))
+    ∧ (nonNaN (cellAt c i j) = [] →
+        ((aggregatesN nd op c)[i]?.bind (·[j]?)) = some (if op = .count ∨ op = .sum then some 0 else nd)) := by
+  have h1 : ((aggregatesN nd op c)[i]?.bind (·[j]?))
+      = some (fillNaN nd (cellValue op (cellAt c i j))) := by
+    unfold aggregatesN cellAt
+    simp [hi, hj]
+  refine ⟨h1, fun hnil => ?_⟩
+  rw [h1]
+  cases op
+  · simp [cellValue, coCount_eq, hnil, fillNaN]
+  · simp [cellValue, coSum_eq, hnil, fillNaN]
+  · have := (coMin_spec (cellAt c i j)).1.2 hnil; simp [cellValue, this, fillNaN]
+  · have := (coMax_spec (cellAt c i j)).1.2 hnil; simp [cellValue, this, fillNaN]
+  · simp [cellValue, coAvg_spec, hnil, fillNaN]
+  · have := (coMedian_spec (cellAt c i j)).1.2 hnil; simp [cellValue, this, fillNaN]
+
 /-! ### the raster object as a state machine: sequences of calls on ONE `Raster`
 
-`run floor wr s cmds` is the model of a sequence of calls (`addAFMap`, `addCollectionToRaster`, `computeAggregates`,
-`setNoDataValue`), each one caught, on the raster in state `s`; `wr` is the module constant `NO_DATA_VALUE` that
+`run floor s cmds` is the model of a sequence of calls (`addAFMap`, `addCollectionToRaster`, `computeAggregates`,
+`setNoDataValue`), each one caught, on the raster in state `s`; `s.noData` is the raster's own no-data value (the constructor's
+`novalue`, then whatever `setNoDataValue` put there; `none` = Python's `None`), which — since the `fix:` commit 279f7b2 — is what
 `computeAggregates` writes. -/
 
 /-- No call changes the grid geometry: after ANY sequence of calls (failing ones included) the geometry is the one
 `Raster.__init__` built. -/
-theorem session_geometry (floor : α → Int) (wr : α) (s : RState α) (cmds : List (Cmd α)) :
-    (run floor wr s cmds).1.g = s.g ∧ (run floor wr s cmds).2.length = cmds.length :=
-  ⟨run_g floor wr cmds s, run_length floor wr cmds s⟩
+theorem session_geometry (floor : α → Int) (s : RState α) (cmds : List (Cmd α)) :
+    (run floor s cmds).1.g = s.g ∧ (run floor s cmds).2.length = cmds.length :=
+  ⟨run_g floor cmds s, run_length floor cmds s⟩
 
 /-- `addCollectionToRaster` REPLACES the values, it does not accumulate. On a raster in ANY state `s` (whatever values an
 earlier collection left, whatever the bands hold) with a well-formed grid, for a collection whose observations lie in the
@@ -239,36 +264,38 @@ added later, `setNoDataValue`, further `computeAggregates`), then `computeAggreg
 `addCollectionToRaster` nor the last `computeAggregates` raises, the geometry is still the constructor's, the bands are those
 present before the last call, and EVERY band — whatever it held before: nothing, an explicit grid, the aggregates of an
 earlier collection — holds, in (line `i`, column `j`), its operator applied to exactly the values of its feature of the
-observations of `T` that `getCell` locates in that cell (NaN → `wr`). With T1 (`cell_footprint`), T2 (`conservation`) and T3
+observations of `T` that `getCell` locates in that cell, a cell without a non-NaN value holding the raster's OWN no-data value as it
+is at that call — the constructor's `novalue` or what `setNoDataValue` put there since, `None` included (`aggregatesN_entry`). With T1 (`cell_footprint`), T2 (`conservation`) and T3
 (`aggregate_spec`) this is the property for the collection LAST scattered, after any history. -/
-theorem session_spec (g : Grid α) (hg : WF g) (nd wr : α) (pre post : List (Cmd α)) (afo : List String) (T : List (Trk α))
+theorem session_spec (g : Grid α) (hg : WF g) (nd : Option α) (pre post : List (Cmd α)) (afo : List String) (T : List (Trk α))
     (hpost : ∀ c ∈ post, c.isAdd = false)
-    (hperm : afo.isPerm (afsOf (run Int.floor wr (initState g nd) pre).1.bands) = true)
+    (hperm : afo.isPerm (afsOf (run Int.floor (initState g nd) pre).1.bands) = true)
     (hfeat : ∀ t ∈ T, ∀ af ∈ afo, (featVals t af).isSome = true) (hin : ∀ t ∈ T, InExtent g t)
-    (hbands : ∀ b ∈ (run Int.floor wr (initState g nd) (pre ++ [.add afo T] ++ post)).1.bands,
+    (hbands : ∀ b ∈ (run Int.floor (initState g nd) (pre ++ [.add afo T] ++ post)).1.bands,
         ∃ af opn rest, b.name = af :: opn :: rest ∧ af ∈ afo ∧ (opOf opn).isSome = true) :
     ∃ (s3 : RState α) (outs : List (Option Err)),
-      run Int.floor wr (initState g nd) (pre ++ [.add afo T] ++ post ++ [.compute]) = (s3, outs)
+      run Int.floor (initState g nd) (pre ++ [.add afo T] ++ post ++ [.compute]) = (s3, outs)
       ∧ outs[pre.length]? = some none ∧ outs.getLast? = some none
-      ∧ s3.g = g
-      ∧ s3.bands.map (·.name) = (run Int.floor wr (initState g nd) (pre ++ [.add afo T] ++ post)).1.bands.map (·.name)
+      ∧ s3.g = g ∧ s3.noData = (run Int.floor (initState g nd) (pre ++ [.add afo T] ++ post)).1.noData
+      ∧ s3.bands.map (·.name) = (run Int.floor (initState g nd) (pre ++ [.add afo T] ++ post)).1.bands.map (·.name)
       ∧ ∀ b ∈ s3.bands, ∀ af opn rest op, b.name = af :: opn :: rest → opOf opn = some op →
           ∃ c : Cells (Option α), Rect c g.nrow.toNat g.ncol.toNat
             ∧ (∀ i j, cellAt c i j = located (fun o : α × α × Option α => getCell Int.floor g o.1 o.2.1) (fun o => o.2.2) j i
                 (T.flatMap (fun t => obsOf t af)))
-            ∧ b.grid = some (aggregates wr op c) := by
-  have hthrough := run_through_add g hg nd wr pre post afo T hperm hfeat hin
+            ∧ b.grid = some (aggregatesN s3.noData op c) := by
+  have hthrough := run_through_add g hg nd pre post afo T hperm hfeat hin
   rw [hthrough] at hbands
-  have hcore := session_core g hg nd wr pre post afo T hpost hperm hfeat hin hbands
-  refine ⟨_, _, hcore, ?_, ?_, ?_, ?_, ?_⟩
-  · have hl : (run Int.floor wr (initState g nd) pre).2.length = pre.length := run_length _ _ _ _
+  have hcore := session_core g hg nd pre post afo T hpost hperm hfeat hin hbands
+  refine ⟨_, _, hcore, ?_, ?_, ?_, ?_, ?_, ?_⟩
+  · have hl : (run Int.floor (initState g nd) pre).2.length = pre.length := run_length _ _ _
     simp only [List.append_assoc]
     rw [List.getElem?_append_right (by omega), hl]
     simp
   · rw [List.getLast?_concat]
   · simp only
     rw [run_g]
-    exact run_g _ _ _ _
+    exact run_g _ _ _
+  · rw [hthrough]
   · rw [hthrough]
     simp [computeBand_name]
   · intro b hb af opn rest op hn hop
@@ -281,7 +308,7 @@ theorem session_spec (g : Grid α) (hg : WF g) (nd wr : α) (pre post : List (Cm
     obtain ⟨rfl, rfl, rfl⟩ := hn
     obtain ⟨c, hl, hR, hc⟩ := (valsOf_spec g hg afo T hfeat hin af').2 haf'
     refine ⟨c, hR, hc, ?_⟩
-    rw [computeBand_ok wr _ b0 af' opn' rest' op c hn' hl hop]
+    rw [computeBand_ok _ _ b0 af' opn' rest' op c hn' hl hop]
 
 /-- One-shot corollary: `summarize`. For EVERY collection of non-empty tracks — a north-south or east-west line of
 observations and a single observation included, whose extent has no width or no height —, positive resolution, margin ≥ 0,
@@ -289,7 +316,8 @@ a non-empty list of (feature, operator) pairs without repetition, operators amon
 feature: `summarize` does not fail and does not return 0; it builds a well-formed grid (at least one column and one row)
 covering every observation, with one band per pair, in call order; and every band holds, in (line `i`, column `j`), its
 operator applied to exactly the values of its feature of the observations that `getCell` locates in that cell (so that T1, T2,
-T3 apply to the returned grids). It is `session_spec` for the call sequence `addAFMap … addAFMap, addCollectionToRaster,
+T3 apply to the returned grids). A cell without a non-NaN value holds `NO_DATA_VALUE` (`wr`), the no-data value of the raster
+`summarize` builds, except for count and sum (0). It is `session_spec` for the call sequence `addAFMap … addAFMap, addCollectionToRaster,
 computeAggregates` on a new raster. Before bdf8515 this needed two different x and two different y among the observations. -/
 theorem summarize_spec (tracks : List (Trk α)) (afs ops afo : List String) (rx ry margin wr : α)
     (hrx : 0 < rx) (hry : 0 < ry) (hm : 0 ≤ margin)
@@ -300,13 +328,13 @@ theorem summarize_spec (tracks : List (Trk α)) (afs ops afo : List String) (rx 
     (hperm : afo.isPerm afs.eraseDups = true)
     (hfeat : ∀ t ∈ tracks, ∀ af ∈ afs, (featVals t af).isSome = true) :
     ∃ s : RState α, summarizeS Int.floor Int.ceil wr tracks afs ops rx ry margin afo = .ok s
-      ∧ WF s.g ∧ (∀ t ∈ tracks, InExtent s.g t)
+      ∧ WF s.g ∧ (∀ t ∈ tracks, InExtent s.g t) ∧ s.noData = some wr
       ∧ s.bands.map (·.name) = (afs.zip ops).map (fun p => [p.1, p.2])
       ∧ ∀ b ∈ s.bands, ∀ af opn rest op, b.name = af :: opn :: rest → opOf opn = some op →
           ∃ c : Cells (Option α), Rect c s.g.nrow.toNat s.g.ncol.toNat
             ∧ (∀ i j, cellAt c i j = located (fun o : α × α × Option α => getCell Int.floor s.g o.1 o.2.1) (fun o => o.2.2) j i
                 (tracks.flatMap (fun t => obsOf t af)))
-            ∧ b.grid = some (aggregates wr op c) := by
+            ∧ b.grid = some (aggregatesN (some wr) op c) := by
   -- the bounding box
   obtain ⟨t0, ht0⟩ := List.exists_mem_of_ne_nil tracks hne
   obtain ⟨p0, hp0⟩ := List.exists_mem_of_ne_nil t0.pts (hpts t0 ht0)
@@ -326,13 +354,13 @@ theorem summarize_spec (tracks : List (Trk α)) (afs ops afo : List String) (rx 
     ⟨⟨le_trans hc1 (hbx0 _ (mx t ht p hp)), le_trans (hbx1 _ (mx t ht p hp)) hc2⟩,
      ⟨le_trans hc3 (hby0 _ (my t ht p hp)), le_trans (hby1 _ (my t ht p hp)) hc4⟩⟩
   -- the bands
-  have hnames : ∀ n ∈ (afs.zip ops).map (fun p => [p.1, p.2]), n ≠ [""] ∧ ∀ b ∈ (initState g wr).bands, b.name ≠ n := by
+  have hnames : ∀ n ∈ (afs.zip ops).map (fun p => [p.1, p.2]), n ≠ [""] ∧ ∀ b ∈ (initState g (some wr)).bands, b.name ≠ n := by
     intro n hn
     obtain ⟨p, _, rfl⟩ := List.mem_map.1 hn
     exact ⟨by simp, fun b hb => by simp [initState] at hb⟩
-  have hpre := run_bands Int.floor wr ((afs.zip ops).map (fun p => [p.1, p.2])) (initState g wr) hdist hnames
+  have hpre := run_bands Int.floor ((afs.zip ops).map (fun p => [p.1, p.2])) (initState g (some wr)) hdist hnames
   rw [List.map_map] at hpre
-  have hprebands : (run Int.floor wr (initState g wr) ((afs.zip ops).map (fun p => Cmd.band [p.1, p.2] none))).1.bands
+  have hprebands : (run Int.floor (initState g (some wr)) ((afs.zip ops).map (fun p => Cmd.band [p.1, p.2] none))).1.bands
       = (afs.zip ops).map (fun p => (⟨[p.1, p.2], none⟩ : Band α)) := by
     have : ((fun n => Cmd.band n none) ∘ fun p : String × String => [p.1, p.2]) = fun p : String × String => (Cmd.band [p.1, p.2] none : Cmd α) := rfl
     rw [this] at hpre
@@ -347,30 +375,30 @@ theorem summarize_spec (tracks : List (Trk α)) (afs ops afo : List String) (rx 
     intro af
     rw [(List.isPerm_iff.1 hperm).mem_iff, List.mem_eraseDups]
   have hfeat' : ∀ t ∈ tracks, ∀ af ∈ afo, (featVals t af).isSome = true := fun t ht af haf => hfeat t ht af ((hmem af).1 haf)
-  have hperm' : afo.isPerm (afsOf (run Int.floor wr (initState g wr) ((afs.zip ops).map (fun p => Cmd.band [p.1, p.2] none))).1.bands) = true := by
+  have hperm' : afo.isPerm (afsOf (run Int.floor (initState g (some wr)) ((afs.zip ops).map (fun p => Cmd.band [p.1, p.2] none))).1.bands) = true := by
     rw [hprebands, hafsOf]; exact hperm
-  have hthrough := run_through_add g hwf wr wr ((afs.zip ops).map (fun p => Cmd.band [p.1, p.2] none)) [] afo tracks hperm' hfeat' hin
-  have hb2 : (run Int.floor wr (initState g wr) ((afs.zip ops).map (fun p => Cmd.band [p.1, p.2] none) ++ [.add afo tracks] ++ [])).1.bands
+  have hthrough := run_through_add g hwf (some wr) ((afs.zip ops).map (fun p => Cmd.band [p.1, p.2] none)) [] afo tracks hperm' hfeat' hin
+  have hb2 : (run Int.floor (initState g (some wr)) ((afs.zip ops).map (fun p => Cmd.band [p.1, p.2] none) ++ [.add afo tracks] ++ [])).1.bands
       = (afs.zip ops).map (fun p => (⟨[p.1, p.2], none⟩ : Band α)) := by
     rw [hthrough, run_nil]
     exact hprebands
-  have hbands : ∀ b ∈ (run Int.floor wr (initState g wr) ((afs.zip ops).map (fun p => Cmd.band [p.1, p.2] none) ++ [.add afo tracks] ++ [])).1.bands,
+  have hbands : ∀ b ∈ (run Int.floor (initState g (some wr)) ((afs.zip ops).map (fun p => Cmd.band [p.1, p.2] none) ++ [.add afo tracks] ++ [])).1.bands,
       ∃ af opn rest, b.name = af :: opn :: rest ∧ af ∈ afo ∧ (opOf opn).isSome = true := by
     rw [hb2]
     intro b hb
     obtain ⟨p, hp, rfl⟩ := List.mem_map.1 hb
     exact ⟨p.1, p.2, [], rfl, (hmem p.1).2 (List.of_mem_zip hp).1, hops p.2 (List.of_mem_zip hp).2⟩
-  obtain ⟨s3, outs, hrun, _, _, hg3, hnames3, hspec⟩ := session_spec g hwf wr wr
+  obtain ⟨s3, outs, hrun, _, _, hg3, hnd3, hnames3, hspec⟩ := session_spec g hwf (some wr)
     ((afs.zip ops).map (fun p => Cmd.band [p.1, p.2] none)) [] afo tracks (by simp) hperm' hfeat' hin hbands
   -- the outcomes: no call raised
-  have hcore := session_core g hwf wr wr ((afs.zip ops).map (fun p => Cmd.band [p.1, p.2] none)) [] afo tracks (by simp) hperm' hfeat' hin
+  have hcore := session_core g hwf (some wr) ((afs.zip ops).map (fun p => Cmd.band [p.1, p.2] none)) [] afo tracks (by simp) hperm' hfeat' hin
     (by rw [← hthrough]; exact hbands)
   have houts : firstErr outs = none := by
-    have : outs = (run Int.floor wr (initState g wr) ((afs.zip ops).map (fun p => Cmd.band [p.1, p.2] none))).2 ++ [none] ++ [] ++ [none] := by
+    have : outs = (run Int.floor (initState g (some wr)) ((afs.zip ops).map (fun p => Cmd.band [p.1, p.2] none))).2 ++ [none] ++ [] ++ [none] := by
       have := hcore.symm.trans hrun
       exact (Prod.mk.inj this).2.symm
     rw [this]
-    have hpre2 : (run Int.floor wr (initState g wr) ((afs.zip ops).map (fun p => Cmd.band [p.1, p.2] none))).2
+    have hpre2 : (run Int.floor (initState g (some wr)) ((afs.zip ops).map (fun p => Cmd.band [p.1, p.2] none))).2
         = ((afs.zip ops).map (fun p => [p.1, p.2])).map (fun _ => (none : Option Err)) := by
       have h2 : ((fun n => Cmd.band n none) ∘ fun p : String × String => [p.1, p.2]) = fun p : String × String => (Cmd.band [p.1, p.2] none : Cmd α) := rfl
       rw [h2] at hpre
@@ -380,7 +408,13 @@ theorem summarize_spec (tracks : List (Trk α)) (afs ops afo : List String) (rx 
     induction L with
     | nil => rfl
     | cons _ _ ih => simpa [firstErr] using ih
-  refine ⟨s3, ?_, by rw [hg3]; exact hwf, by rw [hg3]; exact hin, ?_, ?_⟩
+  have hnd : s3.noData = some wr := by
+    rw [hnd3, hthrough, run_nil]
+    have h2 : ((fun n => Cmd.band n none) ∘ fun p : String × String => [p.1, p.2]) = fun p : String × String => (Cmd.band [p.1, p.2] none : Cmd α) := rfl
+    rw [h2] at hpre
+    simp only [afterAdd, hpre]
+    rfl
+  refine ⟨s3, ?_, by rw [hg3]; exact hwf, by rw [hg3]; exact hin, hnd, ?_, ?_⟩
   · unfold summarizeS
     have h0 : ¬ afs.length = 0 := fun h => hafs (List.eq_nil_of_length_eq_zero h)
     have h1 : ¬ afs.length ≠ ops.length := fun h => h hlen
@@ -396,7 +430,7 @@ theorem summarize_spec (tracks : List (Trk α)) (afs ops afo : List String) (rx 
     rw [hcmds, hrun]
     simp only [houts]
   · rw [hnames3, hb2]; simp
-  · rw [hg3]; exact hspec
+  · rw [hg3, ← hnd]; exact hspec
 
 /-- the `floor` / `ceil` the driver uses at `Rat` (core `Rat.floor`, `Rat.ceil`) are the `Int.floor` / `Int.ceil`
 of the theorems, so on exact (dyadic) inputs the theorems speak about the very values the driver computes -/
@@ -433,16 +467,16 @@ example : (mkGrid Rat.ceil 1 1 0 2 1 1 0).ncol = 1 ∧ (mkGrid Rat.ceil 1 1 0 2 
 /-- `summarize` of the inputs of the defect repaired by bdf8515: a north-south line (count grid `[[2],[1]]`, max `[[5],[1]]`), an
 east-west line (`[[1, 2]]`), a single observation (`[[1]]`) — none raises -/
 def oneTrack (pts : List (ℚ × ℚ)) (vs : List (Option ℚ)) : List (Trk ℚ) := [{ uid := 1, pts := pts, feats := [("v", vs)] }]
-def bandGrids : SumRes ℚ → Option (List (Option (List (List ℚ))))
-  | .ok s => some (s.bands.map (·.grid))
-  | _ => none
+def bandGrids : SumRes ℚ → List (Option (List (List (Option ℚ))))
+  | .ok s => s.bands.map (·.grid)
+  | _ => []
 example :
     bandGrids (summarizeS Rat.floor Rat.ceil (-99999 : ℚ) (oneTrack [(1, 0), (1, 1), (1, 2), (1, 2)] [some 1, some 1, none, some 5])
-        ["v", "v"] ["co_count", "co_max"] 1 1 0 ["v"]) = some [some [[2], [1]], some [[5], [1]]]
+        ["v", "v"] ["co_count", "co_max"] 1 1 0 ["v"]) = [some [[some 2], [some 1]], some [[some 5], [some 1]]]
     ∧ bandGrids (summarizeS Rat.floor Rat.ceil (-99999 : ℚ) (oneTrack [(0, 2), (1, 2), (2, 2)] [some 1, some 1, some 1])
-        ["v"] ["co_count"] 1 1 0 ["v"]) = some [some [[1, 2]]]
+        ["v"] ["co_count"] 1 1 0 ["v"]) = [some [[some 1, some 2]]]
     ∧ bandGrids (summarizeS Rat.floor Rat.ceil (-99999 : ℚ) (oneTrack [(0, 2)] [some 1]) ["v"] ["co_count"] 1 1 (1/4) ["v"])
-        = some [some [[1]]] := by
+        = [some [[some 1]]] := by
   decide +kernel
 /-- a session on ONE raster (the 2 × 2 grid above): a band, a first collection, `computeAggregates`, a second collection,
 `computeAggregates` again, a band added later, `computeAggregates`: no call raises; after the second pass the count band
@@ -450,29 +484,43 @@ describes the second collection alone (`[[0,0],[0,1]]`, not `[[0,1],[1,1]]`), an
 def demoT0 : List (Trk ℚ) := [{ uid := 1, pts := [(0, 0), (1/2, 1/2), (2, 2)], feats := [("v", [some 1, none, some 3])] }]
 def demoT1 : List (Trk ℚ) := [{ uid := 7, pts := [(3/2, 1/2)], feats := [("v", [some 4])] }]
 example :
-    (run Rat.floor (-99999 : ℚ) (initState demoGrid (-99999))
-        [.band ["v", "co_count"] none, .add ["v"] demoT0, .compute]).1.bands.map (·.grid) = [some [[0, 1], [1, 0]]]
-    ∧ (run Rat.floor (-99999 : ℚ) (initState demoGrid (-99999))
+    (run Rat.floor (initState demoGrid (some (-99999 : ℚ)))
+        [.band ["v", "co_count"] none, .add ["v"] demoT0, .compute]).1.bands.map (·.grid) = [some [[some 0, some 1], [some 1, some 0]]]
+    ∧ (run Rat.floor (initState demoGrid (some (-99999 : ℚ)))
         [.band ["v", "co_count"] none, .add ["v"] demoT0, .compute, .add ["v"] demoT1, .compute,
          .band ["v", "co_max"] none, .compute]).1.bands.map (·.grid)
-        = [some [[0, 0], [0, 1]], some [[-99999, -99999], [-99999, 4]]]
-    ∧ (run Rat.floor (-99999 : ℚ) (initState demoGrid (-99999))
+        = [some [[some 0, some 0], [some 0, some 1]], some [[some (-99999), some (-99999)], [some (-99999), some 4]]]
+    ∧ (run Rat.floor (initState demoGrid (some (-99999 : ℚ)))
         [.band ["v", "co_count"] none, .add ["v"] demoT0, .compute, .add ["v"] demoT1, .compute,
          .band ["v", "co_max"] none, .compute]).2 = [none, none, none, none, none, none, none] := by
+  decide +kernel
+/-- the raster's own no-data value (the input of the defect repaired by 279f7b2): built with `novalue = -1`, the cells without value
+of a `co_min` band hold -1; after `setNoDataValue(7)` between `addCollectionToRaster` and `computeAggregates`, 7; after
+`setNoDataValue(None)`, `None`; the count band holds 0 there in every case -/
+example :
+    (run Rat.floor (initState demoGrid (some (-1 : ℚ)))
+        [.band ["v", "co_min"] none, .add ["v"] demoT1, .compute]).1.bands.map (·.grid)
+      = [some [[some (-1), some (-1)], [some (-1), some 4]]]
+    ∧ (run Rat.floor (initState demoGrid (some (-1 : ℚ)))
+        [.band ["v", "co_min"] none, .add ["v"] demoT1, .setNoData (some 7), .compute]).1.bands.map (·.grid)
+      = [some [[some 7, some 7], [some 7, some 4]]]
+    ∧ (run Rat.floor (initState demoGrid (some (-1 : ℚ)))
+        [.band ["v", "co_min"] none, .band ["v", "co_count"] none, .add ["v"] demoT1, .setNoData none, .compute]).1.bands.map (·.grid)
+      = [some [[none, none], [none, some 4]], some [[some 0, some 0], [some 0, some 1]]] := by
   decide +kernel
 /-- calls that raise, in the order the Python meets them: `computeAggregates` before any collection (`AttributeError`), a name
 already taken (`WrongArgumentError`), a band without `#` (`IndexError`), an observation outside the grid (`TypeError`), a band
 added after the collection for a feature it did not scatter (`KeyError`), an unknown operator (`NameError`) -/
 example :
-    (run Rat.floor (-99999 : ℚ) (initState demoGrid (-99999))
+    (run Rat.floor (initState demoGrid (some (-99999 : ℚ)))
         [.band ["v", "co_count"] none, .compute, .band ["v", "co_count"] none,
          .add ["v"] [{ uid := 1, pts := [(3, 3)], feats := [("v", [some 1])] }],
          .add ["v"] demoT1, .band ["w", "co_sum"] none, .compute]).2
       = [none, some .attr, some .wrongArg, some .type, none, none, some .key]
-    ∧ (run Rat.floor (-99999 : ℚ) (initState demoGrid (-99999))
+    ∧ (run Rat.floor (initState demoGrid (some (-99999 : ℚ)))
         [.band ["v"] none, .add ["v"] demoT1, .compute, .add ["v"] [{ uid := 1, pts := [(1, 1)], feats := [] }]]).2
       = [none, none, some .index, some .afError]
-    ∧ (run Rat.floor (-99999 : ℚ) (initState demoGrid (-99999))
+    ∧ (run Rat.floor (initState demoGrid (some (-99999 : ℚ)))
         [.band ["v", "undefined_op"] none, .add ["v"] demoT1, .compute]).2 = [none, none, some .name] := by
   decide +kernel
 /-- the operators on a cell holding NaN, 1, 2 (the input of the defect repaired by 90d9915 / 4b05560) -/
